@@ -2,6 +2,7 @@ package monitors
 
 import (
 	"fmt"
+	"github.com/scionproto/scion/pkg/slayers"
 	"math/rand/v2"
 	"net/netip"
 	"sync/atomic"
@@ -636,6 +637,49 @@ func c06Listeners(r *ev.Run) {
 						_ = tgt.Command("LATETX 0", "LATETX", 3*time.Second)
 						r.Class(tr.name + "-listener:failpoint fired for another read (history abandoned)")
 						break
+					}
+				}
+				if tr.name == "scion" && !lose && (step == 0 || rng.IntN(6) == 0) {
+					// other replies of the same listener socket (here: to an SCMP echo request) are numbered by the
+					// kernel like the NTP replies: their transmit timestamps must not be taken for an NTP reply's
+					eb, eerr := (&peer.SCIONPkt{SrcIA: lia, DstIA: lia, SrcHost: cli, DstHost: srv, Payload: []byte("ping"),
+						SCMP:     &slayers.SCMP{TypeCode: slayers.CreateSCMPTypeCode(slayers.SCMPTypeEchoRequest, 0)},
+						SCMPEcho: &slayers.SCMPEcho{Identifier: uc.Local().Port(), SeqNumber: uint16(step)}}).Serialize()
+					if eerr == nil && uc.Send(tr.dst, eb) == nil {
+						_, eh := uc.ReadUntil(2*time.Second, func(d peer.Datagram) bool {
+							ps, err := peer.ParseSCION(d.Data)
+							return err == nil && ps.HasSCMP
+						})
+						if eh != nil {
+							r.Class(tr.name + "-listener:SCMP echo answered between NTP exchanges")
+							trace = append(trace, "(SCMP echo request answered)")
+						}
+					}
+				}
+				if tr.name == "scion" && wantInter && !lose && rng.IntN(3) == 0 {
+					// the same host address in another ISD-AS is another client: a request of its that names
+					// the receive timestamp of a reply given to this client must be answered in basic mode
+					oia, _ := addr.ParseIA("2-ff00:0:220")
+					fr := peer.NTPFields{LVM: 0x23, Transmit: peer.UniqueTime64(), Origin: req.Origin, Receive: req.Receive}
+					fb, ferr := (&peer.SCIONPkt{SrcIA: oia, DstIA: lia, SrcHost: cli, DstHost: srv, SrcPort: uc.Local().Port(), DstPort: 10123,
+						Path: peer.SCIONPath(rng, 2), Payload: fr.Bytes()}).Serialize()
+					if ferr == nil && uc.Send(tr.dst, fb) == nil {
+						_, fh := uc.ReadUntil(3*time.Second, func(d peer.Datagram) bool {
+							f, ok := peer.ParseNTP(tr.unwrap(d.Data))
+							return ok && (f.Origin == fr.Transmit || f.Origin == fr.Receive)
+						})
+						r.Eval(1)
+						if fh == nil {
+							r.Violation(tr.name+"-listener|missing-reply:valid request not answered", id, map[string]any{"trace": trace, "request": "from the same host address in another ISD-AS"})
+							break
+						}
+						ff, _ := peer.ParseNTP(tr.unwrap(fh.Data))
+						if ff.Origin != fr.Transmit {
+							trace = append(trace, fmt.Sprintf("req from 2-ff00:0:220,%s (origin=%x) -> reply(origin=%x rx=%x tx=%x)", cli, fr.Origin, ff.Origin, ff.Receive, ff.Transmit))
+							r.Violation(tr.name+"-listener|wrong-reply:timestamps recorded for one client served to another (same host address, other ISD-AS)", id, map[string]any{"trace": trace})
+							break
+						}
+						r.Class(tr.name + "-listener:same host address in another ISD-AS is another client")
 					}
 				}
 				sent := time.Now()
